@@ -1309,6 +1309,15 @@ class RoutingParameter:
         return group_names[0] if group_names else self.field
 
     @property
+    def disambiguated_field(self) -> str:
+        """The attribute path of ``field`` on the generated request class.
+
+        Reserved names carry a trailing underscore there (see ``Field.name``);
+        the routing key sent on the wire keeps the original name.
+        """
+        return FieldHeader(self.field).disambiguated
+
+    @property
     def sample_request(self) -> str:
         """return json dict for sample request matching the uri template."""
         sample = uri_sample.sample_from_path_template(self.field, self.path_template)
